@@ -1539,6 +1539,11 @@ type threadCtl struct {
 	skip      string
 	usedTaken bool
 	usedSkip  bool
+	// mkTaken, when set, builds a private copy of the taken side (copy-back + the
+	// caller's single return statement) for one return site of the helper: values
+	// returned together then stay together (status with its error), as in code
+	// that was never split.  nil: jump to the shared taken side.
+	mkTaken func(results []string) []ast.Stmt
 }
 
 // matchTest recognises  X != nil, X == nil, X, !X  and returns X.
@@ -1691,6 +1696,63 @@ func (in *inliner) thread(s, next ast.Stmt) ([]ast.Stmt, int) {
 		}
 	}
 	thr := &threadCtl{k: k, takenWhen: when}
+	// the taken side is a lone return: give every return site of the helper its own copy,
+	// provided no name it uses (or assigns on the way) is declared inside the helper's body
+	if len(ifs.Body.List) == 1 {
+		// (a bare return is left alone: it may stand for named results that a declaration
+		// inside the helper's body would shadow)
+		if ret, ok := ifs.Body.List[0].(*ast.ReturnStmt); ok && !in.hasHelperCall(ret) && len(ret.Results) > 0 {
+			// the variables just assigned are read from the result variables directly (unique
+			// names); every other name of the return must not be declared inside the helper
+			lhsIdx := map[string]int{}
+			if asg != nil {
+				for i, l := range asg.Lhs {
+					if n := l.(*ast.Ident).Name; n != "_" {
+						lhsIdx[n] = i
+					}
+				}
+			}
+			names := map[string]bool{}
+			ast.Inspect(ret, func(n ast.Node) bool {
+				if id, ok := n.(*ast.Ident); ok {
+					if _, isLhs := lhsIdx[id.Name]; !isLhs {
+						names[id.Name] = true
+					}
+				}
+				return true
+			})
+			clash := false
+			ast.Inspect(ret, func(n ast.Node) bool {
+				if _, ok := n.(*ast.FuncLit); ok {
+					clash = true
+				}
+				return !clash
+			})
+			ast.Inspect(h.decl.Body, func(n ast.Node) bool {
+				switch x := n.(type) {
+				case *ast.FuncLit:
+					clash = true // a return inside a literal would not be the caller's
+				case *ast.Ident:
+					if in.info().Defs[x] != nil && names[x.Name] {
+						clash = true
+					}
+				}
+				return !clash
+			})
+			if !clash {
+				thr.mkTaken = func(results []string) []ast.Stmt {
+					cp := cloneNode(ret, func(old, nw *ast.Ident) {
+						if i, ok := lhsIdx[old.Name]; ok && in.info().Uses[old] != nil {
+							if _, isVar := in.info().Uses[old].(*types.Var); isVar {
+								nw.Name = results[i]
+							}
+						}
+					}).(ast.Stmt)
+					return []ast.Stmt{cp}
+				}
+			}
+		}
+	}
 	exp, why := in.expandWith(h, call, thr)
 	if exp == nil {
 		in.note.Skipped = append(in.note.Skipped, in.curFn+" → "+h.key+": "+why)
@@ -1748,6 +1810,19 @@ func (in *inliner) thread(s, next ast.Stmt) ([]ast.Stmt, int) {
 			sts[0] = &ast.LabeledStmt{Label: ast.NewIdent(label), Stmt: sts[0]}
 		}
 		return sts
+	}
+	if thr.mkTaken != nil && !thr.usedTaken {
+		// every return site carries its own copy of the taken side; the variables
+		// assigned here may have had their only reads there
+		if asg != nil {
+			for _, l := range asg.Lhs {
+				if n := l.(*ast.Ident).Name; n != "_" {
+					skipSide = append(skipSide, &ast.AssignStmt{Lhs: []ast.Expr{ast.NewIdent("_")}, Tok: token.ASSIGN, Rhs: []ast.Expr{ast.NewIdent(n)}})
+				}
+			}
+		}
+		out = append(out, labeled(thr.skip, thr.usedSkip, skipSide)...)
+		return out, consumed
 	}
 	out = append(out, labeled(thr.taken, thr.usedTaken, takenSide)...)
 	out = append(out, &ast.BranchStmt{Tok: token.GOTO, Label: ast.NewIdent(end)})
@@ -2704,11 +2779,21 @@ func (in *inliner) expandWith(h *helper, call *ast.CallExpr, thr *threadCtl) (*e
 					default:
 						cond = &ast.UnaryExpr{Op: token.NOT, X: rk}
 					}
-					thr.usedTaken, thr.usedSkip = true, true
-					brk = &ast.BlockStmt{List: []ast.Stmt{&ast.IfStmt{Cond: cond, Body: &ast.BlockStmt{List: []ast.Stmt{jump(thr.taken)}}}, jump(thr.skip)}}
+					thr.usedSkip = true
+					takenBody := []ast.Stmt{jump(thr.taken)}
+					if thr.mkTaken != nil {
+						takenBody = thr.mkTaken(exp.results)
+					} else {
+						thr.usedTaken = true
+					}
+					brk = &ast.BlockStmt{List: []ast.Stmt{&ast.IfStmt{Cond: cond, Body: &ast.BlockStmt{List: takenBody}}, jump(thr.skip)}}
 				case cls == thr.takenWhen:
-					thr.usedTaken = true
-					brk = jump(thr.taken)
+					if thr.mkTaken != nil {
+						brk = &ast.BlockStmt{List: thr.mkTaken(exp.results)}
+					} else {
+						thr.usedTaken = true
+						brk = jump(thr.taken)
+					}
 				default:
 					thr.usedSkip = true
 					brk = jump(thr.skip)
